@@ -1,28 +1,28 @@
 SPECIFICATION Spec
-CONSTANTS Ctx <- McCtx
- Init0 <- McInit
+CONSTANTS Ctx <- McCtxTerm
+ Init0 <- McInitTerm
  Gas <- McGas
  Devs = {}
- Kinds = {"xfer", "box", "reg", "topup", "unreg"}
- From = {"a1", "a2"}
- XTo = {"a2", "KR", "KS", "KD", "KO"}
- XAmt = {100, 1000}
- Payers = {"a4"}
- Voters = {}
- Cands = {"a3", "a4"}
+ Kinds = {"xfer", "vote", "reg", "topup", "unreg", "setrew"}
+ From = {"a2"}
+ XTo = {"a1"}
+ XAmt = {100}
+ Payers = {}
+ Voters = {"a1", "M1", "I"}
+ Cands = {"a1", "a3", "M1"}
  RegAmt = {300}
  AFrom = {}
  ATo = {}
  AAmt = {}
  IAmt = {}
- BoxFrom = {"a1"}
- BoxTo = {"a1", "a2"}
- RewFrom = {}
- RewTerms = {}
- RewAmt = {}
- EmptyOK = FALSE
+ BoxFrom = {}
+ BoxTo = {}
+ RewFrom = {"F"}
+ RewTerms = {0}
+ RewAmt = {500}
+ EmptyOK = TRUE
  MaxTx = 3
- MaxBlk = 2
+ MaxBlk = 3
  MaxTot = 3
 VIEW View
 INVARIANTS NonNegative Conservation DepositsBacked VotesAtBoundary SupplyEqualsEquity NothingForbiddenIncluded
